@@ -12,8 +12,8 @@ pub struct ExBytesMut(BytesMut);
 #[verifier::external_body]
 pub struct ExBytes(Bytes);
 
-/// the octets of a string slice (its UTF-8 encoding)
-pub uninterp spec fn str_bytes(s: &str) -> Seq<u8>;
+/// the octets of a string slice (its UTF-8 encoding; vstd's byte view of `str`)
+pub open spec fn str_bytes(s: &str) -> Seq<u8> { vstd::string::StringSliceAdditionalSpecFns::spec_bytes(s) }
 pub uninterp spec fn bm_view(b: &BytesMut) -> Seq<u8>;
 pub uninterp spec fn b_view(b: &Bytes) -> Seq<u8>;
 /// ghost counter: total size explicitly requested through `BytesMut::reserve` on this buffer
